@@ -78,8 +78,10 @@ def random_cases(ctx, ntraj, nrestart):
             metric = "lp1"
         out.append({"kind": "traj", "inp": {"ft": v[0], "metric": metric, "form": r.choice(LAYOUTS), "f": f, "pts": pts, "c0": c0,
                                             "qs": queries(f, g) if f == 1 else queries(f, g)[::3],
-                                            "ms": [1, 2], "nruns": r.choice([1, 2, 3]),
+                                            "ms": [1, 2], "nruns": r.choice([1, 2, 3]), "hms": [],
                                             "tol": r.choice([[1, 1000000000], [1, 1000000000], [1, 2], [3, 2]]) if metric == "l2" else [1, 1000000000]}})
+        if out[-1]["inp"]["tol"][1] < 1000:     # a tolerance the run meets after a few iterations: add budgets >= 2^32
+            out[-1]["inp"]["hms"] = ["4294967296", "4294967297", "4294967298", "18446744073709551615"]
     for _ in range(nrestart):
         f = r.choice([1, 2, 2])
         g = 6
